@@ -54,6 +54,11 @@ def run_variant(case, name, seed):
     elif name == "stepped":
         c["drive"] = {"mode": "steps", "n": 0, "untilDone": True}
         kw["extra_steps"] = 3
+    elif name in ("beside-twin", "beside-other"):
+        # another simulation alive in the same process and advanced in lock-step with this one: the same
+        # scenario over a different geographic reference (same node ids, timer names, targets), or another one
+        c["drive"] = {"mode": "steps", "n": 0, "untilDone": True}
+        c["shadow"] = {"mode": name.split("-")[1], "lead": 1, "refGeo": [fbits(1.0), fbits(2.0), c["cfg"]["refGeo"][2]]}
     elif name == "rerun":
         pass
     try:
@@ -73,11 +78,16 @@ def run_variant(case, name, seed):
     return res
 
 
-def run_subprocess(case, seed, hashseed):
+def run_subprocess(case, seed, hashseed, forerunner=False):
     env = dict(os.environ)
     env["PYTHONHASHSEED"] = str(hashseed)
     env["VERIF_REPO"] = str(REPO)
-    payload = json.dumps({"case": case, "seed": seed})
+    body = {"case": case, "seed": seed}
+    if forerunner:
+        f = copy.deepcopy(case)
+        f["cfg"]["refGeo"] = [fbits(1.0), fbits(2.0), f["cfg"]["refGeo"][2]]
+        body["forerunner"] = f
+    payload = json.dumps(body)
     r = subprocess.run([sys.executable, str(HERE / "c06_sub.py")], input=payload, stdout=subprocess.PIPE,
                        stderr=subprocess.PIPE, text=True, env=env, cwd=str(VERIF))
     if r.returncode != 0:
@@ -164,10 +174,13 @@ class C06(SimCheck):
     thorough_n = 240
     force_cfg = {"hasComm": True, "hasTimer": True}
     drive = {"mode": "start"}
-    variants = ["rerun", "logging", "profile", "logfile", "realtime", "stepped"]
+    variants = ["rerun", "logging", "profile", "logfile", "realtime", "stepped", "beside-twin", "beside-other"]
+    profile = {"w": {"setTimer": 5, "cancelTimer": 2, "send": 3, "broadcast": 2, "goto": 1, "setSpeed": 0.5,
+                     "setRange": 0.5, "gotoGeo": 1}}
 
     def tweak(self, r, scn):
         cfg = scn["cfg"]
+        scn.pop("shadow", None)          # the baseline runs alone; the beside-* variants add the other simulation
         cfg["failRate"] = fbits(r.choice([0.25, 0.5, 0.5, 0.75, 0.0]))
         if cfg["hasMob"] and cfg["duration"] is None and cfg["maxIter"] is None:
             cfg["duration"] = 4096
@@ -228,6 +241,11 @@ class C06(SimCheck):
         for h in hs:
             sub = run_subprocess(frozen, seed, h)
             variants[f"hashseed-{h}"] = cb_trace(sub["trace"]) if sub.get("trace") is not None else sub.get("crash")
+        # a fresh interpreter in which the same scenario over ANOTHER geographic reference ran first
+        # (the baseline above is the first user of every process-wide structure in this process)
+        if tier != "quick" or hs or sum(1 for row in base["table"] if "gotoGeo" in json.dumps(row["reqs"])) >= 2:
+            sub = run_subprocess(frozen, seed, 7, forerunner=True)
+            variants["after-forerunner"] = cb_trace(sub["trace"]) if sub.get("trace") is not None else sub.get("crash")
         base["variants"] = variants
         return base
 
